@@ -1,8 +1,45 @@
 import NflowsModel.Core.Driver
-/-! Core/Ops/C04 — driver operations used by the C04 correspondence (executable model, Mathlib-free). -/
+import NflowsModel.Core.FlowPairing
+/-! Core/Ops/C04 — driver operations used by the C04 correspondence (executable model, Mathlib-free).
+
+op `c04_pair`, i = [R, n, embShift, mode]: run the value-level model of Core/FlowPairing on TAGGED data
+(noise rows tagged by flat draw index, context rows by row index + embShift) and report who was paired with whom.
+  mode 0  Flow.sample_and_log_prob(n, context of R rows)
+  mode 1  Flow.sample(n, context of R rows)
+  mode 2  Distribution.sample_and_log_prob(n, context of R rows)   (the default implementation)
+  mode 3  Flow.sample_and_log_prob(n) without context
+answer: i = [number of blocks, length of every block (or -1 if ragged)],
+        f[0] = samples, row-major over (block, draw): noise tag, context tag (mode 2, 3: noise tag only)
+        f[1] = log-probabilities, row-major: the tags every term was computed from. -/
 namespace NF
+open NF.FlowPairing
+
+def c04Dims {α : Type} (x : List (List α)) : List Int :=
+  let lens := x.map List.length
+  let l0 := lens.headD 0
+  [Int.ofNat x.length, if lens.all (· == l0) then Int.ofNat l0 else -1]
+
+def runC04Pair (r : Req) : Resp :=
+  let R := r.nat 0
+  let n := r.nat 1
+  let sh := r.nat 2
+  match r.nat 3 with
+  | 0 =>
+    let (s, l) := taggedSalp sh R n
+    { ints := c04Dims s ++ c04Dims l,
+      fs := [s.flatten.flatMap (fun p => [p.1, p.2]), l.flatten.flatten] }
+  | 1 =>
+    let s := taggedSample sh R n
+    { ints := c04Dims s, fs := [s.flatten.flatMap (fun p => [p.1, p.2]), []] }
+  | 2 =>
+    let (s, l) := taggedDistSalp R n
+    { ints := c04Dims s ++ c04Dims l, fs := [s.flatten, l.flatten.flatten] }
+  | _ =>
+    let (s, l) := taggedSalp0 n
+    { ints := [Int.ofNat s.length, Int.ofNat l.length], fs := [s, l.flatten] }
 
 /-- handler for the ops of this property; `none` = not one of mine -/
-def handleC04 (_r : Req) : Option Resp := none
+def handleC04 (r : Req) : Option Resp :=
+  if r.op == "c04_pair" then some (runC04Pair r) else none
 
 end NF
